@@ -1,10 +1,11 @@
 package gosym
 
 import (
-	"os"
 	"fmt"
 	"go/token"
 	"go/types"
+	"os"
+	"runtime"
 	"sort"
 	"strings"
 	"sync"
@@ -185,8 +186,18 @@ func (i *interpreter) startThread(th *thread, fn value, args []value) {
 				msg := panicString(r)
 				i.violation("panic", "uncaught panic: "+msg, "goroutine "+th.name+" at "+i.panicAt, nil)
 				i.finish(OutCrash, msg)
+			case string:
+				if strings.HasPrefix(r, "interface conversion") || strings.HasPrefix(r, "value method") || strings.HasPrefix(r, "runtime error") {
+					// target-level panics that the interpreter raises as strings
+					i.violation("panic", "uncaught panic: "+r, "goroutine "+th.name+" at "+i.panicAt, nil)
+					i.finish(OutCrash, r)
+				} else {
+					i.finish(OutInternal, "host panic: "+r)
+				}
 			default:
-				i.finish(OutInternal, fmt.Sprintf("host panic: %v", r))
+				buf := make([]byte, 8192)
+				buf = buf[:runtime.Stack(buf, false)]
+				i.finish(OutInternal, fmt.Sprintf("host panic: %v: %s", r, firstFrames(string(buf))))
 			}
 		}()
 		call(i, &frame{i: i, th: th}, token.NoPos, fn, args)
